@@ -21,7 +21,7 @@
 EXTENDS Integers, Sequences, FiniteSets, TLC, Json, IOUtils
 
 Rec == ndJsonDeserialize(IOEnv.TRACE)
-Kinds == {"add", "stream", "get", "die", "st", "creq", "cserved", "cdone", "csessions", "calive", "ckill", "cstate", "cres", "end"}
+Kinds == {"add", "stream", "get", "die", "st", "creq", "cserved", "cdone", "csessions", "calive", "ckill", "cstate", "cres", "cfinal", "mid", "end"}
 
 InitSt(e) == [CI |-> IF "consts" \in DOMAIN e THEN e.consts.CI ELSE 1,
               IT |-> IF "consts" \in DOMAIN e THEN e.consts.IT ELSE 1,
@@ -36,6 +36,7 @@ InitSt(e) == [CI |-> IF "consts" \in DOMAIN e THEN e.consts.CI ELSE 1,
 
 Ok(s)      == [ok |-> TRUE, st |-> s, why |-> "", dev |-> "", site |-> ""]
 No(s, why) == [ok |-> FALSE, st |-> s, why |-> why, dev |-> "", site |-> ""]
+NoC(s2, why) == [ok |-> FALSE, st |-> s2, why |-> why, dev |-> "", site |-> "", cont |-> TRUE]   \* recorded, scenario continues from s2
 Dv(s, d, site) == [ok |-> TRUE, st |-> s, why |-> "", dev |-> d, site |-> site]
 Put(f, k, v) == [x \in DOMAIN f \cup {k} |-> IF x = k THEN v ELSE f[x]]
 SetOf(q) == {q[i] : i \in 1..Len(q)}
@@ -93,7 +94,7 @@ Apply(s, e) ==
                                 !.cof = Put(@, e.r, e.s),
                                 !.cinmap = IF e.new THEN @ \cup {e.s} ELSE @ \ {e.s}]
             IN  IF e.sclosed \/ e.s \in s.cclosed THEN No(s, "C12: a request was served on a closed session")
-                ELSE IF e.new /\ held # {} THEN No(s, "C13: a new session was dialled although the idle map holds a healthy session")
+                ELSE IF e.new /\ held # {} THEN NoC(s2, "C13: a new session was dialled although the idle map holds a healthy session")
                 ELSE IF ~e.new /\ e.s \notin s.cinmap THEN No(s, "C12: a request was served on a session the pool cannot hold (handed out twice)")
                 ELSE IF e.new /\ idle # {} THEN Dv(s2, "SessionNeverReturnedToPool", "client")   \* healthy idle sessions exist but none is in the map
                 ELSE Ok(s2)
@@ -124,7 +125,7 @@ Apply(s, e) ==
                 ELSE IF ~e.ok /\ e.reach THEN No(s, "C12: a request to a reachable destination failed although server and network are healthy (it was put on a dead session)")
                 ELSE IF e.overlap \/ s.cunsure THEN Ok(upd)
                 ELSE IF e.dialled > 1 THEN No(s, "C13: one request dialled more than one TLS connection")
-                ELSE IF e.dialled = 1 /\ held # {} THEN No(s, "C13: a new session was dialled although the idle map holds a healthy session")
+                ELSE IF e.dialled = 1 /\ held # {} THEN NoC(upd, "C13: a new session was dialled although the idle map holds a healthy session")
                 ELSE IF e.dialled = 0 /\ known /\ e.s \notin s.cinmap THEN No(s, "C12: a request was served on a session the pool cannot hold (handed out twice)")
                 ELSE IF e.dialled = 0 /\ e.ok /\ ~known /\ anon = {} THEN No(s, "C12: a request was served on a session the pool cannot hold (handed out twice)")
                 ELSE IF e.dialled = 1 /\ idle # {} THEN Dv(upd, "SessionNeverReturnedToPool", "client")
@@ -132,6 +133,18 @@ Apply(s, e) ==
       [] e.ev = "cdone" -> Ok([s EXCEPT !.cact[s.cof[e.r]] = @ - 1])
       [] e.ev = "csessions" ->
             IF e.open <= e.peak + e.mi THEN Ok(s) ELSE Dv(s, "SessionNeverReturnedToPool", "client")
+      \* a request 100 ms into a reaper round whose victims take a second each to close
+      [] e.ev = "mid" ->
+            IF e.hung THEN No(s, "C12: a request that arrived during a reaper round never got an answer")
+            ELSE IF e.res # 0 /\ e.closedAtGet THEN No(s, "C12: the pool handed out a session that is already closed")
+            ELSE IF e.res # 0 /\ e.closedAfter THEN No(s, "C12: a session handed out during a reaper round was closed by that round while in use")
+            ELSE Ok(s)
+      [] e.ev = "cfinal" ->
+            \* after a quiet period longer than timeout + interval: of the sessions the idle map holds, at most the minimum survive
+            LET stillOpen == {e.open[i] : i \in 1..Len(e.open)} IN
+            IF Cardinality(stillOpen \cap s.cinmap) > e.mi
+            THEN No(s, "C12: idle sessions in the map beyond the minimum were not closed although they were idle longer than the timeout")
+            ELSE Ok(s)
       [] e.ev = "calive" ->
             IF e.ok THEN Ok(s)
             ELSE IF e.sclosed THEN Dv(s, "ReaperClosesSessionInUse", "client")
@@ -139,7 +152,7 @@ Apply(s, e) ==
       [] e.ev = "end" -> IF e.panics = 0 THEN Ok(s) ELSE No(s, "a task panicked")
       [] OTHER -> No(s, "unknown event")
 
-NonTrivial(e, r) == r.ok /\ (e.ev = "st" \/ e.ev = "cserved" \/ e.ev = "cres" \/ e.ev = "get")
+NonTrivial(e, r) == r.ok /\ (e.ev = "st" \/ e.ev = "mid" \/ e.ev = "cserved" \/ e.ev = "cres" \/ e.ev = "get")
 
 VARIABLES l, st, bad, devs, skip, scn, cnt, nt
 TK == INSTANCE TraceKit
